@@ -16,6 +16,20 @@ package dsn
 //@ ghost var gHdrPart textproto.Header
 //@ ghost var gHdrParts int
 
+// Diagnostic-Code carries text received from the next hop (multi-line replies, stray CR): whatever it is, the value of
+// the field contains neither CR nor LF - a value with one makes the header writer refuse the whole report, and then no
+// recipient of that attempt is reported. hasCR / hasLF are uninterpreted; assumed: they distribute over concatenation,
+// the literals used here contain neither, strings.ReplaceAll(s, "\n" / "\r", " ") removes the one and keeps the other,
+// and fmt.Sprintf of a clean format with int and clean string arguments is clean.
+//@ uninterp func hasCR(s string) bool
+//@ uninterp func hasLF(s string) bool
+//@ axiom crlf-concat: forall a string, b string :: hasCR(a + b) == (hasCR(a) || hasCR(b)) && hasLF(a + b) == (hasLF(a) || hasLF(b))
+//@ axiom crlf-literals: !hasCR("X-Maddy; ") && !hasLF("X-Maddy; ") && !hasCR("smtp; %d %d.%d.%d %s") && !hasLF("smtp; %d %d.%d.%d %s") && !hasCR(" ") && !hasLF(" ")
+//@ extern func (RecipientInfo).WriteTo#ReplaceAll$call(s string, old string, new string) string
+//@   ensures old == "\n" && new == " " ==> !hasLF(result) && hasCR(result) == hasCR(s)
+//@   ensures old == "\r" && new == " " ==> !hasCR(result) && hasLF(result) == hasLF(s)
+//@ extern func (RecipientInfo).WriteTo#Sprintf$call(format string, a []interface{}) string
+//@   ensures !hasCR(format) && !hasLF(format) && (forall k int :: 0 <= k && k < len(a) ==> isType(a[k], "int") || (isType(a[k], "string") && !hasCR(as(a[k], "string")) && !hasLF(as(a[k], "string")))) ==> !hasCR(result) && !hasLF(result)
 // A per-recipient group is written only with its mandatory fields (Final-Recipient, Action, Status); otherwise an
 // error is returned and nothing is counted.
 //@ func (RecipientInfo).WriteTo
@@ -27,6 +41,7 @@ package dsn
 //@   trusted-ensures result == nil ==> gRcptFields == old(gRcptFields) + 1
 //@   trusted-ensures result != nil ==> gRcptFields == old(gRcptFields)
 //@   assert-call textproto.WriteHeader : info.FinalRecipient != "" && info.Action != "" && info.Status[0] != 0
+//@   assert-call (*textproto.Header).Add : $k == "Diagnostic-Code" ==> !hasCR($v) && !hasLF($v)
 //@ func (ReportingMTAInfo).WriteTo
 //@   prop C18
 //@   nopanic
